@@ -370,7 +370,7 @@ impl Scenario for C16 {
         }
     }
     fn rule(&self) -> String {
-        "Each run: a JitterRng over a scripted clock (same clock profiles and fault catalogue as C12, including the runs whose first collected value is crafted to have a zero half or to be zero; rounds 1..=255) with a workload biased to next_u32 pairs, next_u32 followed by each other output call, and clone while a half is pending; a twin over the same script is driven in lock-step with fresh-collection calls only. Per call, from the clock's read counter: the second of two consecutive next_u32 reads the timer 0 times and the pair equals the twin's next_u64; every other output call reads at least rounds (x number of 64-bit values) times and equals the twin's value (so a pending half is discarded, never re-served); the first output of a clone (made with clone(), or with clone_from() into a generator that is already in use and holds a pending half) reads its own forked clock at least rounds times and equals the first output of the twin's clone (which never had a half pending); the original still serves its pending half afterwards. fill_bytes(1..=4)/fill_bytes(0) with a half pending: both 'takes the pending half, reads nothing' and 'discards it' are accepted. Static part: JitterRng over a Copy timer must not itself be Copy (a copy is a clone made without Clone::clone). distinct_nontrivial = distinct (op kind, op applied to clone, half pending, rounds bucket, fill length bucket) signatures.".into()
+        "Each run: a JitterRng over a scripted clock (same clock profiles and fault catalogue as C12, including the runs whose first collected value is crafted to have a zero half or to be zero; rounds 1..=255) with a workload biased to next_u32 pairs, next_u32 followed by each other output call, and clone while a half is pending; a twin over the same script is driven in lock-step with fresh-collection calls only. Per call, from the clock's read counter: the second of two consecutive next_u32 reads the timer 0 times and the pair equals the twin's next_u64; every other output call reads at least rounds (x number of 64-bit values) times and equals the twin's value (so a pending half is discarded, never re-served); the first output of a clone (made with clone(), or with clone_from() into a generator that is already in use and holds a pending half) reads its own forked clock at least rounds times and equals the first output of the twin's clone (which never had a half pending); the original still serves its pending half afterwards. fill_bytes(1..=4)/fill_bytes(0) with a half pending: both 'takes the pending half, reads nothing' and 'discards it' are accepted. Static part: JitterRng over a Copy timer must not itself be Copy (a copy is a clone made without Clone::clone). distinct_nontrivial = distinct (op kind, op applied to clone, half pending, rounds bucket, fill length bucket) signatures. Histories also contain timer_stats and test_timer (skipped while a half is pending), set_rounds(0) (contained on both sides), the long-haul variant of C12 (2^8 / 2^16 collections from one instance), a real-clock JitterRng::new() first (one run in 40), and the real clock flying by 1 ms .. 1 h per reading (one run in ten).".into()
     }
     fn assumptions(&self) -> Vec<String> {
         vec![
